@@ -60,13 +60,15 @@ def ft_sh_phase_screen(r0, N, delta, L0, l0, FFT=None, seed=None):
         fx, fy = numpy.meshgrid(fx,fx)
         f = numpy.sqrt(fx**2 +  fy**2) # polar grid
 
-        fm = 5.92/l0/(2*numpy.pi) # inner scale frequency [1/m]
+        # 1/fm, the inverse of the inner scale frequency fm = 5.92/l0/(2 pi) [1/m]
+        # (l0 = 0, no inner scale, is then simply exp(0) = 1)
+        inv_fm = 2*numpy.pi*l0/5.92
         f0 = 1./L0
 
         # outer scale frequency [1/m]
         # modified von Karman atmospheric phase PSD
         PSD_phi = (0.023*r0**(-5./3)
-                    * numpy.exp(-1*(f/fm)**2) / ((f**2 + f0**2)**(11./6)) )
+                    * numpy.exp(-1*(f*inv_fm)**2) / ((f**2 + f0**2)**(11./6)) )
         PSD_phi[1,1] = 0
 
         # random draws of Fourier coefficients
@@ -127,10 +129,12 @@ def ft_phase_screen(r0, N, delta, L0, l0, FFT=None, seed=None):
     (fx, fy) = numpy.meshgrid(fx,fx)
     f = numpy.sqrt(fx**2. + fy**2.)
 
-    fm = 5.92/l0/(2*numpy.pi)
+    # inverse of the inner scale frequency fm = 5.92/l0/(2 pi): l0 = 0 (no inner
+    # scale) gives exp(0) = 1 instead of a division by zero
+    inv_fm = 2*numpy.pi*l0/5.92
     f0 = 1./L0
 
-    PSD_phi = (0.023*r0**(-5./3.) * numpy.exp(-1*((f/fm)**2)) / (((f**2) + (f0**2))**(11./6)))
+    PSD_phi = (0.023*r0**(-5./3.) * numpy.exp(-1*((f*inv_fm)**2)) / (((f**2) + (f0**2))**(11./6)))
 
     PSD_phi[int(N/2), int(N/2)] = 0
 
